@@ -6,6 +6,8 @@ import DW.Driver.Caches
 import DW.Driver.Conc
 import DW.Driver.C17
 import DW.Driver.Names
+import DW.Driver.C16
+import DW.Driver.C18
 
 open Lean DW.Driver
 
@@ -20,6 +22,8 @@ def dispatch (j : Json) : Except String Json := do
   | "conc" => handleConc j
   | "c17" => handleC17 j
   | "names" => handleNames j
+  | "c16" => handleC16 j
+  | "c18" => handleC18 j
   | x => throw s!"unknown op {x}"
 
 def handleLine (line : String) : String :=
